@@ -4,7 +4,7 @@ import re
 
 from ..common import Check, coq_eval, harness
 from ..translate import gen_split
-from . import c01_pluck, c01_splitoff
+from . import c01_pluck, c01_splitoff, c01_preprocess
 from ..rel import prog as P, run as R, e2e as E
 
 TRUSTED = [
@@ -14,6 +14,7 @@ TRUSTED = [
     "specification of SQL's logical clause order (lo/hi/multi in coq/Model/SplitBase.v)",
     "end-to-end oracle: program generator/printers vplib/rel/prog.py, harness (prqlc::compile, rusqlite bundled SQLite), comparison in vplib/rel/run.py",
     "hand-written model coq/Model/SplitOff.v of split_off_back / get_requirements / can_materialize / infer_complexity (sql/pq/anchor.rs), tied on every run to every real call through the hook 3aa4f6d (remaining length, missing columns, atomic kinds, Select list), with the translated split table as its parameter",
+    "hand-written model coq/Model/Preprocess.v of the decisions of preprocess.rs distinct / intersect / except, tied on every run to every pass of every compile through the hook 8fb8a9c; determine_select_columns (context.rs) is taken from the hook, not modelled",
     "hand-written model coq/Model/SelectPluck.v of translate_select_pipeline's clause assembly (gen_query.rs), tied on every run to every real call through the hook 7400a50 (field by field); its LIMIT/OFFSET/FETCH tail is C07's Model/SelectClauses.v",
     "modelled, not verified: the resolver (PL->RQ), preprocess/postprocess, projection and expression generation are tied only by the end-to-end oracle; Theta-2 is proved over abstract rows/filters/sorts/aggregates, its link to the code is the split-table obligation, the segment validator and the oracle",
 ]
@@ -265,9 +266,13 @@ def run():
     c01_pluck.pluck_stream(ck, (rich + rest)[: ck.n(260, 3000)])
     # the code's split loop vs Model/SplitOff.v (with the translated table plugged in) on every call of split_off_back
     c01_splitoff.splitoff_stream(ck, (rich + rest)[: ck.n(300, 3000)])
+    # the recognisers of preprocess.rs (distinct / intersect / except) vs Model/Preprocess.v on every candidate of every pass
+    setop = [x for x in allsrc if ("join" in x or "group" in x)]
+    rng.shuffle(setop)
+    c01_preprocess.preprocess_stream(ck, setop[: ck.n(250, 2500)])
 
     ck.proof_broken_violation(found_input=bool(ck.violations))
     ck.assumptions += ["instances: integers and NULL in {NULL,-1,0,1,2,3}, 0..6 rows, ids unique, insertion order shuffled; floats only as results of `/`",
                        "generic-dialect SQL is executed on SQLite; constructs SQLite cannot run for the generic target (OFFSET without LIMIT) are skipped and counted",
                        "rows are compared as multisets here (sequence order is C03, column names C05)"]
-    ck.finish(TRUSTED, "streams: ranges = all pairs (+ sampled triples) of take ranges with bounds in {open,1..4}; pairs = every ordered pair of 13 transform kinds forced adjacent; random = programs of 1..7 transforms; each on 2 instances x {sqlite, generic}; directed = families the split/sort machinery is sensitive to + one hand-built program per open finding (E.directed_known) + replays of repaired findings (E.directed_fixed: a recurrence is a VIOLATION); pluck = every call of translate_select_pipeline on a sample of those programs x {sqlite, generic, mssql}: Model/SelectPluck.v (+ C07's clause tail on the plucked takes) vs the hook's WHERE / HAVING condition lists, GROUP BY, ORDER BY, DISTINCT, LIMIT/OFFSET/FETCH, and the hypotheses of c01_pluck_sound judged on the same pipeline; splitoff = every call of split_off_back on a sample of those programs x {sqlite, postgres}: Model/SplitOff.v run in Coq with Gen/GenSplit.v's table vs the hook's outputs; segments = every atomic pipeline of the implementation's final PQ (sql.sqlite; sql.postgres too for programs with `group (.. take ..)`, where DISTINCT ON exists) judged by the Coq `clause_ordered`, and every aggregating SELECT checked to project group keys and aggregates only. distinct = hash of (program, target, instance); non-trivial = non-empty result or a failure")
+    ck.finish(TRUSTED, "streams: ranges = all pairs (+ sampled triples) of take ranges with bounds in {open,1..4}; pairs = every ordered pair of 13 transform kinds forced adjacent; random = programs of 1..7 transforms; each on 2 instances x {sqlite, generic}; directed = families the split/sort machinery is sensitive to + one hand-built program per open finding (E.directed_known) + replays of repaired findings (E.directed_fixed: a recurrence is a VIOLATION); pluck = every call of translate_select_pipeline on a sample of those programs x {sqlite, generic, mssql}: Model/SelectPluck.v (+ C07's clause tail on the plucked takes) vs the hook's WHERE / HAVING condition lists, GROUP BY, ORDER BY, DISTINCT, LIMIT/OFFSET/FETCH, and the hypotheses of c01_pluck_sound judged on the same pipeline; preprocess = every Take-with-partition / inner Join / left Join + Filter in the input of the passes distinct / intersect / except x {sqlite, postgres, generic}: Model/Preprocess.v's verdict vs what the pass's output shows; splitoff = every call of split_off_back on a sample of those programs x {sqlite, postgres}: Model/SplitOff.v run in Coq with Gen/GenSplit.v's table vs the hook's outputs; segments = every atomic pipeline of the implementation's final PQ (sql.sqlite; sql.postgres too for programs with `group (.. take ..)`, where DISTINCT ON exists) judged by the Coq `clause_ordered`, and every aggregating SELECT checked to project group keys and aggregates only. distinct = hash of (program, target, instance); non-trivial = non-empty result or a failure")
